@@ -9,7 +9,7 @@ namespace Jp.C20
 open Jp.Spec.Features
 
 -- OBLIGATIONS
--- all_subsets_build closure_contains default_closure_example
+-- all_subsets_build closure_contains default_closure_example std_gates_are_behaviour_neutral
 
 /-- for every subset of the eight features, every reference enabled under its closure is available -/
 theorem all_subsets_build : ∀ m : Fin 256, builds Jp.Gen.table m.val = true := by
@@ -25,6 +25,12 @@ theorem default_closure_example :
     has (closure Jp.Gen.table.featEdges (1 <<< 6)) 5 = true ∧
     has (closure Jp.Gen.table.featEdges (1 <<< 0)) 1 = true ∧
     (Jp.Gen.table.rows.any fun r => r.gates.all (·.eval 255)) = true := by
+  decide +kernel
+
+/-- second half (the core behaves the same without std): every region or attribute of the crate whose
+    gate mentions the `std` feature is an `impl std::error::Error for …` block or a `no_std` / `macro_use`
+    attribute — no function, method or branch of the core is selected by `std` (regenerated table) -/
+theorem std_gates_are_behaviour_neutral : Jp.Gen.stdGated.all (· == 0) = true := by
   decide +kernel
 
 end Jp.C20
